@@ -78,7 +78,7 @@ class C11(object):
     time_keys = {"steps": "scheduler steps (one per instrumented access, GOMP entry or allocator call)"}
     fault_keys = ["switches", "realloc_moved", "realloc_stay", "alloc", "free", "parallel_runs", "dset_grew(realloc)"]
     tiers = {"quick": {"runs": 14000, "budget_s": 60, "selftest_every": 40, "fresh_selftest": 10},
-             "thorough": {"runs": 1500000, "budget_s": 800, "selftest_every": 300, "fresh_selftest": 20}}
+             "thorough": {"runs": 6000000, "budget_s": 800, "selftest_every": 300, "fresh_selftest": 20}}
     rule = ("one run = (image 2x2..64x64 incl. checkerboards/spirals/combs/isolated grids, threshold possibly equal to "
             "a pixel value) through dense(8), dense(4), sparse and splat kernels under (team, strategy, interleaving, "
             "garbage, initial disjoint-set capacity 4..16384, moving/staying realloc); distinct = distinct (image "
